@@ -820,6 +820,13 @@ def const_value(prog, func, expr):
 def _eval_const(e):
     if isinstance(e, ast.Constant):
         return e.value
+    if isinstance(e, ast.Call) and unparse(e.func) in ("struct.calcsize", "calcsize") and len(e.args) == 1 and not e.keywords:
+        import struct as _struct
+        fmt_ = _eval_const(e.args[0])
+        try:
+            return _struct.calcsize(fmt_) if isinstance(fmt_, str) else None
+        except _struct.error:
+            return None
     if isinstance(e, ast.UnaryOp):
         v = _eval_const(e.operand)
         if v is None:
@@ -1788,6 +1795,42 @@ def value_leaves(cfg, nid, expr, params=(), _depth=0):
                 return None
             out.extend(r_)
     return out
+
+
+def role_candidates(ctx, owner):
+    """Functions that can play the role of a closure of `owner`: its nested functions, plus the functions of the same
+    unit that are not part of the reference tree (helpers a refactoring introduced) and that `owner` reaches by calls
+    or by registering them as callbacks - a closure lifted out into a private method is still found by what it does."""
+    from .. import normalize
+    prog = ctx.prog
+    ref = normalize.reference().get(owner.module.name, set())
+    out = list(owner.nested.values())
+    for g in reachable_funcs(prog, owner, follow_registered=True, depth=4).values():
+        if g is owner or g in out or g.module is not owner.module:
+            continue
+        q = g.qname.split(":", 1)[1] if ":" in g.qname else g.qname
+        if q not in ref:
+            out.append(g)
+    return out
+
+
+def producer_roles(ctx):
+    """The helpers of Producer._handle_send_response by what they do (nested closures today; private methods or module
+    functions after a refactoring): deliver (fires caller Deferreds under `not called`), check_retry (decides between
+    failing the sends and scheduling a retry: the one that arms the timer), do_retry (re-sends through the client)."""
+    prog = ctx.prog
+    hsr = ctx.func("producer:Producer._handle_send_response")
+    cands = role_candidates(ctx, hsr)
+
+    def one(pred, prefer):
+        hit = [g for g in cands if pred(g)]
+        named = [g for g in hit if g.name == prefer]
+        return named[0] if named else (hit[0] if len(hit) == 1 else None)
+    deliver = one(lambda g: any(call_name(c) == "callback" for c in calls_in(g)) and not any(call_name(c) in ("callLater", "send_produce_request") for c in calls_in(g))
+                  and "called" in unparse(g.node), "_deliver_result")
+    check_retry = one(lambda g: any(call_name(c) == "callLater" for c in calls_in(g)), "_check_retry_payloads")
+    do_retry = one(lambda g: any(call_name(c) == "send_produce_request" for c in calls_in(g)), "_do_retry")
+    return {"deliver": deliver, "check_retry": check_retry, "do_retry": do_retry}
 
 
 __all__ = [n for n in dir() if not n.startswith("_")]
